@@ -39,7 +39,7 @@ EXHAUSTIVE = {"quick": False, "thorough": False}
 SCOPE = {"quick": "700 datasets (n<=3, m<=2, exhaustive) x 3 (naming, scheme) + 17 corner datasets x 7 namings x 5 "
                   "schemes + 600 sampled (n<=5, m<=4); 35 schemes; 25 configurations x one in {T,F} each; all pivot "
                   "sequences for n<=4",
-         "thorough": "all datasets n<=3 m<=3 (18.3k) and n=4 m<=2 (22.6k) x 1 rotating scheme, quick's sweep, 4000 "
+         "thorough": "all datasets n<=3 m<=3 (18.3k) and n=4 m<=2 (22.6k) x 1 rotating scheme, quick's sweep, 8000 "
                      "sampled (n<=6, m<=5; stand-in configurations with return_at_most_one_ranking=False only for "
                      "n<=5); all pivot sequences for n<=4"}
 CHUNK = 4
@@ -217,7 +217,7 @@ def named(rankings, kind):
     return D.rename(rankings, NAME_KINDS[kind](n))
 
 
-def sweep(tier, seed, schemes, per_dataset_schemes=3, sample_quick=600, sample_thorough=4000):
+def sweep(tier, seed, schemes, per_dataset_schemes=3, sample_quick=600, sample_thorough=8000):
     """Deterministic stream of {"rankings", "scheme", "namekind", "src"} shared by C03 / C04."""
     kinds = list(NAME_KINDS)
     ns = len(schemes)
